@@ -232,7 +232,11 @@ func (p *Packer) packWalkFn(root, src, dst string, tarW *tar.Writer, meta *Meta,
 			return nil
 		}
 
-		if r := matchIgnoreRules(subpath, ignoreRules); r.Excluded {
+		// An excluded path is left out. A directory is still walked, since a
+		// path below it need not be excluded itself; the same goes for a link
+		// that dereferencing would replace by a directory.
+		excluded := matchIgnoreRules(subpath, ignoreRules).Excluded
+		if excluded && !(p.dereference && info.Mode()&os.ModeSymlink != 0) {
 			return nil
 		}
 
@@ -284,6 +288,9 @@ func (p *Packer) packWalkFn(root, src, dst string, tarW *tar.Writer, meta *Meta,
 
 			// Check if the symlink's target falls within the root.
 			if ok, err := p.validSymlink(root, path, target); ok {
+				if excluded {
+					return nil
+				}
 				// We can simply copy the link. Inside a dereferenced directory
 				// the entry sits elsewhere than the link does on disk, so a
 				// relative target into the root is re-expressed from the
@@ -313,14 +320,23 @@ func (p *Packer) packWalkFn(root, src, dst string, tarW *tar.Writer, meta *Meta,
 			// Attempt to follow the external target so we can copy its contents
 			resolved, err := p.resolveExternalLink(root, path)
 			if err != nil {
+				if excluded {
+					return nil
+				}
 				return err
 			}
 
 			// If the target is a directory we can recurse into the target
 			// directory by calling the packWalkFn with updated arguments.
 			if resolved.info.IsDir() {
+				if r := matchIgnoreRules(subpath+string(os.PathSeparator), ignoreRules); r.Excluded && r.Dominating {
+					return nil
+				}
 				for _, dir := range active {
 					if os.SameFile(dir, resolved.info) {
+						if excluded {
+							return nil
+						}
 						return fmt.Errorf("symlink %q leads back into a directory being dereferenced", path)
 					}
 				}
@@ -333,7 +349,7 @@ func (p *Packer) packWalkFn(root, src, dst string, tarW *tar.Writer, meta *Meta,
 
 			// Like special files inside the source directory, a fifo, socket
 			// or device behind the link is left out; opening it could block.
-			if !resolved.info.Mode().IsRegular() {
+			if excluded || !resolved.info.Mode().IsRegular() {
 				return nil
 			}
 
